@@ -147,7 +147,7 @@ PROPS["C10"] = dict(
     diff_fields_by_stream={"core": r"loadN:.*", "fetch": r".*"},
     spec_ids=["C10"],
     technique="Lean 4: admission invariant of the bounded fetcher over all accepted event lists (fetch_limited_superset) and uniqueness of sort-and-trim (load_limited_exact); trace validation and all four loaders with limits 0..size+3",
-    level_text="Kernel-checked for every accepted quiescent event list with limit n >= 0, no faults, times increasing along next: results are duplicate-free ancestors, every ancestor is admitted or dominated by n admitted entries with larger time, hence the newest n are present, and sort-and-trim of the result equals sort-and-trim of the whole closure — independent of concurrency and arrival order. Tied to the code by trace validation and by the loaders' outputs against the specification 'all supplied entries plus the most recent others' on every generated case.",
+    level_text="Kernel-checked for every accepted quiescent event list with limit n >= 0, no faults, times increasing along next: results are duplicate-free ancestors, every ancestor is admitted or dominated by n admitted entries with larger time, hence the newest n are present, and sort-and-trim of the result equals sort-and-trim of the whole closure — independent of concurrency and arrival order; for NewFromEntry (entryLastNKeeping) load_entries_limited_exact: all supplied entries, min(max(n,k),size) in all, of the others exactly the newest max(n,k)-d, again independent of the schedule. The trimming helpers entryLastN, entryLastNKeeping, entrySliceRange and Difference are translated from the Go source on every run and proved equal to the model, including absence of slice-bounds panics (Props/SlicesGen). Tied to the code by trace validation and by the loaders' outputs against the specification 'all supplied entries plus the most recent others' on every generated case.",
     level_note=FETCH_NOTE + " Gap stated in DESIGN.md: NewFromEntryHash with n = 0 fetches with 0 but trims with 1 — covered by the stream, not by the theorem.",
     design_ref="§8 C10",
     rule=FETCH_RULE,
